@@ -128,13 +128,13 @@ Inductive value :=
 | AFloat (f : float) (text : bytes)
 | ABad.                      (* any other Go type: not a value type *)
 
-(* core.ToBytes.  [None] = ErrValueType.  A nil byte slice is bound by the SQL
-   driver as NULL: represented by [Some None]. *)
+(* core.ToBytes.  [None] = ErrValueType.  The inner option is a value the SQL
+   driver would bind as NULL; since the nil-slice repair no Go value does. *)
 Definition to_bytes (v : value) : option (option bytes) :=
   match v with
   | AStr s => Some (Some s)
   | ABytes s => Some (Some s)
-  | ANil => Some None
+  | ANil => Some (Some "")
   | AInt z => Some (Some (itoa z))
   | ABool b => Some (Some (if b then "1" else "0"))
   | AFloat _ t => Some (Some t)
